@@ -16,7 +16,7 @@ Section Spec.
   Variable rsym_o : nat -> option sym.
   Notation tflat := (tflat esym rlist rsym_o).
   Notation bflat := (bflat esym rlist rsym_o).
-  Notation ring_items := (ring_items rsym_o).
+  Notation ring_items := (ring_items rsym_o false).
 
   (** the writer's ring items, threaded over a list of nodes *)
   Fixpoint rflat (mk : marks) (ks : list Z) : list (list (option sym * marker)) * marks :=
